@@ -241,7 +241,7 @@ ENTRY_ENDS = ["oi:{v}", "oiw:{v}", "oiwk:{v}", "od:{v0}", "key", "drop", "o.key"
 
 def inst_fin(o, fin):
     if "{v0}" in fin:
-        return fin.replace("{v0}", f"{o.id()}#0")
+        fin = fin.replace("{v0}", f"{o.id()}#0")
     return inst(o, fin)
 
 
